@@ -88,12 +88,20 @@ _p("C10", modules=["ports"], level="proof",
    not_under_contract=[])
 
 
-BOUNDED_FRAMING = [{"function": "tlexport.session.Session.extract_server_buf / extract_client_buf / get_tls_records",
+BOUNDED_FRAMING = [{"function": "tlexport.session.Session.get_tls_records (the history: which segments are in the buffer when), and a second, bounded run of "
+                                "extract_server_buf / extract_client_buf with list.sort executed (framing.extract)",
                     "bound": "at most 3 buffered TCP segments carrying at most 14 stream bytes (up to 2 complete records); contents, cut points, "
                              "sequence numbers (mod 2^32) and arrival order symbolic; all loops unrolled completely within the bound",
-                    "counted_as": "bounded (exhaustive within the bound), NOT as an unbounded proof"}]
+                    "counted_as": "bounded (exhaustive within the bound), NOT as an unbounded proof; the per-call contract of extract_*_buf itself is discharged WITHOUT bound by "
+                                  "framing.unbounded (four loop invariants, two variants, sort-key obligation, three induction lemmas)"}]
+UNBOUNDED_FRAMING_ASSUMPTIONS = ["list.sort(key=k) leaves a permutation of the list in non-decreasing key order (stable)",
+                                 "framing.unbounded describes its input by ghost functions (prefix sums off, record starts bpos, first gap G, record count R, carrying segments A/Z); "
+                                 "their defining facts are instantiated by hand at the indices each loop touches; existence of R (the record scan of a finite string ends) is by "
+                                 "well-founded recursion on len(D) and is not machine-checked",
+                                 "the three lemmas of framing.lemmas are proved by induction: z3 discharges base case and step, the induction schema is applied on paper",
+                                 "buffered segments are non-empty (run() skips empty segments: run.packet_branches) and a chain spans < 2^31 bytes (sort-key obligation only)"]
 
-_p("C06", modules=["tcp_output", "quic_output", "framing"], level="other",
+_p("C06", modules=["tcp_output", "quic_output", "framing", "framing_unbounded"], level="other",
    technique="contract-based deductive verification (pyvc: loop invariants incl. nonlinear split arithmetic, callee contracts) + one bounded stand-in",
    level_text="Proved without bound on the real bodies: build_ack_handshake (SYN/SYN-ACK/ACK, seq 0/0/1, orientation, IPv4 and IPv6); build_server_packet / "
               "build_client_packet for symbolic record length n and symbolic number k of carrying packets (two loop invariants: the parts tile decrypted[0:n), "
@@ -102,46 +110,49 @@ _p("C06", modules=["tcp_output", "quic_output", "framing"], level="other",
               "QUICOutputbuilder.build's per-iteration transition relation and final flush (UDP datagram per capture timestamp, orientation, payload); "
               "QuicSession.build_output returns only builder frames. Every frame is built from Ether/IP|IPv6/TCP|UDP[/Raw] with no length or checksum field set.",
    level_note="NOT implied by the discharged obligations and therefore level 'other': (1) byte-level well-formedness (lengths, checksums, pcapng container) is scapy's and "
-              "dpkt's assumed contract; (2) the precondition 'every exported record has >= 1 carrying packet' comes from the BOUNDED framing check; (3) the step from the per-call "
+              "dpkt's assumed contract; (2) the precondition 'every exported record has >= 1 carrying packet' is the metadata clause of the UNBOUNDED framing contract (framing.unbounded: A(q) <= Z(q)); (3) the step from the per-call "
               "contracts to 'a standard reassembler recovers the streams' is the composition argument of DESIGN 4 C06 (concatenation of consistent segments); (4) 32-bit "
               "sequence wrap of the OUTPUT (more than 4 GiB per direction) is outside the claim.",
    design_ref="DESIGN.md 4 C06",
    explanation="Per-function contracts proved (see level_text); the end-to-end sentence 'the output file is a valid pcapng ... a standard reassembler recovers exactly the "
                "exported streams' additionally needs scapy/dpkt's serialisers (assumed) and the paper composition of the per-call sequence-number contracts.",
-   assumptions=["scapy fills in every length/checksum field that was not set explicitly; str and bytes spellings of an address denote the same address",
+   assumptions=UNBOUNDED_FRAMING_ASSUMPTIONS + ["scapy fills in every length/checksum field that was not set explicitly; str and bytes spellings of an address denote the same address",
                 "dpkt.pcapng.Writer writes a valid pcapng for (bytes, float timestamp) pairs",
                 "A-FLOORDIV: floor(fl(n/k)) == n div k for 0 <= n, 1 <= k, n + k < 2^53 (paper proof in DESIGN 3.2)"],
    trusted_base=["scapy layer constructors and serialiser", "dpkt.pcapng.Writer"], bounded=BOUNDED_FRAMING,
    composition_assumptions=["concatenating per-record frame groups whose first sequence number equals 1 + bytes sent before yields gap-free, non-overlapping sequence space per direction"],
    not_under_contract=["main.run writer loop (bytes(buf), ts) -> dpkt (covered by the run() contracts of C18/C11 when built)"])
 
-_p("C07", modules=["tcp_output", "quic_output", "framing", "ports"], level="other",
+_p("C07", modules=["tcp_output", "quic_output", "framing", "framing_unbounded", "ports"], level="other",
    technique="contract-based deductive verification (pyvc) + one bounded stand-in",
    level_text="Proved on the real bodies: every frame the TLS builder emits is oriented sender->receiver with the session's MACs, IPs (IP version as the session's) and "
               "ports, the client port unchanged (tcp_out.* orientation clauses, all 22 scapy constructions); data frame j of a record carries the timestamp of the j-th packet "
               "that carried the record, ACKs the same; the handshake carries the time of the first exported record's first packet; QUIC datagrams carry the "
               "timestamp and direction of the input datagram whose frames they hold; roles are taken from the first packet as documented (ports.roles); a record's "
-              "metadata is exactly the buffered segments overlapping its byte range, in stream order (framing.extract, BOUNDED).",
-   level_note="microsecond preservation = the float timestamp passing unchanged from dpkt's reader to dpkt's writer (trusted); metadata exactness is bounded (<= 3 segments, <= 14 bytes)",
+              "metadata is exactly the buffered segments overlapping its byte range, in stream order (framing.unbounded: proved for any number of segments and records; framing.extract repeats it within a bound with list.sort executed).",
+   level_note="microsecond preservation = the float timestamp passing unchanged from dpkt's reader to dpkt's writer (trusted); metadata exactness is proved without bound per extract call (framing.unbounded)",
    design_ref="DESIGN.md 4 C07",
-   explanation="Orientation and timestamp clauses are postconditions proved per builder call for symbolic sizes; the metadata clause is only bounded; timestamp resolution is a "
+   explanation="Orientation and timestamp clauses are postconditions proved per builder call for symbolic sizes; the metadata clause is an unbounded loop contract; timestamp resolution is a "
                "library property (dpkt reader/writer) and not reached.",
-   assumptions=["timestamps are opaque tokens that the code only copies (modelled as integers; equality only)"],
+   assumptions=UNBOUNDED_FRAMING_ASSUMPTIONS + ["timestamps are opaque tokens that the code only copies (modelled as integers; equality only)"],
    trusted_base=["scapy layer constructors", "dpkt readers/writers (timestamp resolution)"], bounded=BOUNDED_FRAMING,
    not_under_contract=["dpkt_dsb.Reader timestamp arithmetic (C12)"])
 
-_p("C05", modules=["framing", "main_run"], level="other",
-   technique="contracts on the real functions checked exhaustively within a stated bound (bounded stand-in) + unbounded dedupe contract",
-   level_text="BOUNDED (<= 3 segments, <= 14 stream bytes, everything else symbolic): extract_server_buf/extract_client_buf release exactly frame(D) when the buffered segments chain "
-              "contiguously modulo 2^32 and D ends on a record boundary, and otherwise release nothing and keep every segment; get_tls_records delivers, for every cut of a "
-              "stream into <= 3 segments, every initial sequence number and every capture order outside the recorded finding's region, a prefix of frame(S) and all of it when S "
-              "ends on a boundary. UNBOUNDED: Session.handle_packet buffers a segment iff its sequence number was not seen in its direction.",
-   level_note="bounded, not a proof: an unbounded loop contract for the framing loops (DESIGN Appendix C.6) was not completed; one open finding (early segment at an empty buffer) is "
-              "excluded by region and re-confirmed natively on every run",
-   design_ref="DESIGN.md 4 C05",
-   explanation="The property quantifies over all segmentations; the check covers all segmentations into at most 3 segments of streams of at most 14 bytes. It is exhaustive within that "
-               "bound and silent beyond it.",
-   assumptions=[], trusted_base=["list.sort (stable, total order by key)"], bounded=BOUNDED_FRAMING, not_under_contract=["main.run's skip of empty segments (run() contract)"])
+_p("C05", modules=["framing", "framing_unbounded", "main_run"], level="other",
+   technique="contract-based deductive verification: unbounded loop contract (four invariants, two variants, quantifier-free VCs over spec-function lists) for the framing "
+             "functions + unbounded dedupe contract; the capture-order history is a bounded stand-in",
+   level_text="UNBOUNDED (any number of buffered segments, any payloads, any number of records): extract_server_buf / extract_client_buf release records iff the sorted buffer is one "
+              "contiguous chain modulo 2^32 and its concatenation D ends on a record boundary; then exactly frame(D) is appended, in order, each record being its window of D with "
+              "exactly its carrying segments as metadata, and the buffer is emptied; otherwise nothing changes; both framing loops terminate; the real sort key orders every "
+              "contiguous chain (< 2^31 bytes) in stream order from any base segment; Session.handle_packet buffers a segment iff its sequence number was not seen in its "
+              "direction. BOUNDED (<= 3 segments, <= 14 stream bytes): get_tls_records delivers, for every cut of a stream into <= 3 segments, every initial sequence number and "
+              "every capture order outside the recorded finding's region, a prefix of frame(S) and all of it when S ends on a boundary.",
+   level_note="level 'other': the per-call framing contract is proved without bound, but the lifting to whole capture histories (which segments sit in the buffer when "
+              "get_tls_records calls extract) is only checked within a bound; one open finding (early segment at an empty buffer) is excluded by region and re-confirmed natively on every run",
+   design_ref="DESIGN.md 4 C05, 8.8",
+   explanation="Segmentation independence per extract call (the buffer's concatenation is framed the same however it is cut into segments) is proved for all inputs; retransmission is the "
+               "dedupe contract; reordering across calls (the history) is exhaustive for <= 3 segments / <= 14 bytes and silent beyond.",
+   assumptions=UNBOUNDED_FRAMING_ASSUMPTIONS, trusted_base=["list.sort (stable, total order by key)"], bounded=BOUNDED_FRAMING, not_under_contract=[])
 
 
 _p("C09", modules=["keylog", "main_run", "demux", "container"], level="other",
@@ -222,9 +233,9 @@ _p("C03", modules=["robustness", "demux", "ports", "quic_output", "main_run"], l
    assumptions=["every library call may raise on any input (cryptography, dpkt)"], trusted_base=[],
    not_under_contract=["QuicSession.handle_packet loop / decrypt_packet's decryptor lookup before its try block", "extract_quic_packet in the QUICK tier (thorough only)"])
 
-_p("C01", modules=["record_protection", "framing", "keys", "cipher_suites", "tcp_output", "robustness", "metadata"], level="other",
+_p("C01", modules=["record_protection", "framing", "framing_unbounded", "keys", "cipher_suites", "tcp_output", "robustness", "metadata"], level="other",
    technique="contract-based deductive verification of every link of the TLS pipeline (per-function contracts; primitives uninterpreted); composition on paper",
-   level_text="The pipeline is decomposed into links and each link's obligation is discharged on the real code: framing (records = frame(stream), BOUNDED); ServerHello parsing "
+   level_text="The pipeline is decomposed into links and each link's obligation is discharged on the real code: framing (records released by one extract call = frame(buffered stream), UNBOUNDED loop contract; capture-order history BOUNDED); ServerHello parsing "
               "(random, suite, compression, extension map incl. zero-length last extensions, version rule; bounded to 2 extensions); suite resolution (C14, exhaustive); key "
               "schedules and installed keys (C15); handshake state machine (an encrypted handshake record advances exactly its sender's cipher state, iff that sender sent "
               "ChangeCipherSpec); dispatch (finite: version x cipher class -> RFC record-protection function, total); record protection - for every decrypt_* function the "
@@ -236,7 +247,7 @@ _p("C01", modules=["record_protection", "framing", "keys", "cipher_suites", "tcp
               "AES/HMAC/etc. are uninterpreted; ClientHello parsing is a single slice (client random) and not separately contracted; compression (zlib) is not claimed",
    design_ref="DESIGN.md 4 C01",
    explanation="Every listed link is proved per function; what is not machine-checked is their composition into the whole-connection invariant and the cryptography itself.",
-   assumptions=["dec(enc(x)) = x for CBC/stream contexts; AEAD decrypt returns the protected plaintext or raises InvalidTag"],
+   assumptions=UNBOUNDED_FRAMING_ASSUMPTIONS + ["dec(enc(x)) = x for CBC/stream contexts; AEAD decrypt returns the protected plaintext or raises InvalidTag"],
    trusted_base=["cryptography (AEAD, Cipher, modes)"], bounded=BOUNDED_FRAMING,
    composition_assumptions=["induction over the record sequence: the Decryptor's per-direction state equals the sender's after the same records"],
    not_under_contract=["Decryptor.inflate (compression)", "Session.handle_tls_client_hello (one slice)"])
@@ -269,18 +280,18 @@ _p("C13", modules=["metadata", "quic_output", "tcp_output", "robustness", "recor
    design_ref="DESIGN.md 4 C13", explanation="Per-record and per-builder obligations discharged for both values of the flag; the whole-run subsequence statement is their composition (paper).",
    assumptions=[], trusted_base=[], not_under_contract=["handle_tls_client_hello / handle_tls_server_hello under the product harness"])
 
-_p("C08", modules=["prefix", "framing", "tcp_output", "quic_output", "main_run", "demux"], level="other",
+_p("C08", modules=["prefix", "framing", "framing_unbounded", "tcp_output", "quic_output", "main_run", "demux"], level="other",
    technique="syntactic frame obligations (append-only accumulators, no look-ahead) + bounded product contract + builder transition relations",
    level_text="The export is a left fold over the capture. Discharged: every accumulating list (packet_buffer, application_traffic, output_buffer, the builders' out lists, "
               "main's session/key lists after the reset) is append-only; each fold loop reads its input only through its loop variable (no look-ahead, no second pass); "
               "records delivered from the first k captured segments are a prefix of those from all segments (product contract, bounded to 3 segments / 14 bytes, all "
               "orders incl. the open finding's region); the builders' per-iteration transition relations depend on the current element and the accumulated state only; "
-              "records are released only when whole (framing contract).",
+              "records are released only when whole (framing.unbounded, proved for any number of segments).",
    level_note="level 'other': the prefix property of the DECRYPTED bytes needs 'decrypting a prefix of the records yields a prefix of the plaintext' - true for the record-at-a-time "
               "protection proved in C01 (state advances per record) but the end-to-end statement is not derived; QUIC's last datagram group is flushed at end of input and a cut "
               "inside a group cannot occur (datagrams are atomic); frame obligations are syntactic and conservative",
    design_ref="DESIGN.md 4 C08", explanation="Causality of the fold is established by frame obligations and a bounded product contract; the crypto step is per record (C01) and the lifting is on paper.",
-   assumptions=[], trusted_base=[], bounded=BOUNDED_FRAMING, not_under_contract=[])
+   assumptions=UNBOUNDED_FRAMING_ASSUMPTIONS, trusted_base=[], bounded=BOUNDED_FRAMING, not_under_contract=[])
 
 
 _p("C12", modules=["container", "main_run"], level="other",
